@@ -47,6 +47,20 @@ Proof.
   all: intros (e&H1&H2); exists e; split; [lia|auto].
 Qed.
 
+(* ---------------------------------------------------------------- well-formed graphs *)
+(* every edge joins two vertices of the network *)
+Definition wf_graph (g : graph) : Prop :=
+  forall e, In e (gedges g) -> esrc e < nverts g /\ edst e < nverts g.
+
+Lemma wf_key_lt g d eid e : wf_graph g -> get_edge g eid = Some e -> key_vertex d e < nverts g.
+Proof. intros Hwf He. destruct (Hwf e (get_edge_In _ _ _ He)). destruct d; assumption. Qed.
+Lemma wf_term_lt g d eid e : wf_graph g -> get_edge g eid = Some e -> term_vertex d e < nverts g.
+Proof. intros Hwf He. destruct (Hwf e (get_edge_In _ _ _ He)). destruct d; assumption. Qed.
+Lemma tgt_none g : forall t, @None nat = Some t -> t < nverts g.
+Proof. discriminate. Qed.
+Lemma tgt_some g t : t < nverts g -> forall t0, Some t = Some t0 -> t0 < nverts g.
+Proof. intros H t0 [= <-]. exact H. Qed.
+
 (* ---------------------------------------------------------------- the priority queue *)
 Section PQ.
   Context {C : Type} (clt : C -> C -> bool).
@@ -129,13 +143,16 @@ Section Inv.
   Variable estimate : nat -> nat -> St -> res C.
   Variable terminate : nat -> nat -> option string.
   Variable ok : nat -> bool.
+  Hypothesis Hwf : wf_graph g.
   Hypothesis Hfr : forall e st prev, frontier e st prev = Ok (ok e).
   Hypothesis Htr : forall d e prev st, exists r, traverse d e prev st = Ok r.
-  Hypothesis Hest : forall a b st, exists c, estimate a b st = Ok c.
+  (* the estimate is only ever asked about vertices of the network *)
+  Hypothesis Hest : forall a b st, a < nverts g -> b < nverts g -> exists c, estimate a b st = Ok c.
 
   Variable d : dir.
   Variable source : nat.
   Variable target : option nat.
+  Hypothesis Htin : forall t, target = Some t -> t < nverts g.
 
   Notation sstate := (sstate C St).
   Notation relax := (relax clt cadd czero cfloor g frontier traverse estimate d target).
@@ -193,13 +210,13 @@ Section Inv.
     unfold et_total. simpl.
     destruct (s_g s !! key_vertex d e) as [ex|] eqn:Hk; [destruct (clt (cadd gcur (cfloor (cadd ac tc))) ex) eqn:Hb|].
     - assert (exists h, hres (key_vertex d e) cur = Ok h) as [h Hh].
-      { unfold hres. destruct target; [apply Hest|eauto]. }
+      { unfold hres. destruct target as [t|] eqn:Htg; [apply Hest; [eapply wf_key_lt; eauto|apply Htin; reflexivity]|eauto]. }
       unfold hres in Hh. rewrite Hh. simpl. eexists. split; [reflexivity|]. split.
       + eapply relaxed_upd; eauto.
       + intros _ _. unfold lab. simpl. rewrite lookup_insert. eauto.
     - exists s. split; [reflexivity|split; [eapply relaxed_keep; eauto|]]. intros _ _. unfold lab. rewrite Hk. eauto.
     - assert (exists h, hres (key_vertex d e) cur = Ok h) as [h Hh].
-      { unfold hres. destruct target; [apply Hest|eauto]. }
+      { unfold hres. destruct target as [t|] eqn:Htg; [apply Hest; [eapply wf_key_lt; eauto|apply Htin; reflexivity]|eauto]. }
       unfold hres in Hh. rewrite Hh. simpl. eexists. split; [reflexivity|]. split.
       + eapply relaxed_upd; eauto.
       + intros _ _. unfold lab. simpl. rewrite lookup_insert. eauto.
